@@ -539,7 +539,7 @@ type estKey struct {
 func TestC20Estimations(t *testing.T) {
 	theT = t
 	col := ev.New("C20", "estimations",
-		"rapid: putContainerSize over epochs near the current one and from the prefix pool {1,256,257,65536}, 2 live containers and a missing one, 3 storage nodes that enter/leave the network map, senders with and without their witness, interleaved with epoch ticks; accepted iff the container is live, the key witnessed and the key is in the previous epoch's map (read from Netmap snapshot(1)); model: put removes that node's entries of the container older than epoch-3, a tick to e removes all entries older than e-4; after every step iterateContainerSizes, iterateAllContainerSizes, listContainerSizes and getContainerSize are compared with the model for every epoch in use; non-trivial = an entry was cleaned by a put or a tick while another entry survived",
+		"rapid: putContainerSize over epochs near the current one and from the prefix pool {1,256,257,65536}, 2 live containers and a missing one, 3 storage nodes that enter/leave the network map, senders with their witness, without it (another node signs) and with it plus another node's co-signature, interleaved with epoch ticks; accepted iff the container is live, the key witnessed and the key is in the previous epoch's map (read from Netmap snapshot(1)); model: put removes that node's entries of the container older than epoch-3, a tick to e removes all entries older than e-4; after every step iterateContainerSizes, iterateAllContainerSizes, listContainerSizes and getContainerSize are compared with the model for every epoch in use; non-trivial = an entry was cleaned by a put or a tick while another entry survived",
 		"epochs are non-negative", "container ids are SHA-256 values (prefix-related container ids cannot be constructed)")
 	est := func(pub []byte, size int64) string {
 		return chainkit.ItemString(stackitem.NewStruct([]stackitem.Item{stackitem.NewByteArray(pub), stackitem.Make(size)}))
@@ -635,6 +635,13 @@ func TestC20Estimations(t *testing.T) {
 				signers := []neotest.Signer{nodes[ni]}
 				if !witness {
 					signers = []neotest.Signer{nodes[(ni+1)%3]}
+				} else if rapid.IntRange(0, 3).Draw(rt, "coSigned") == 0 {
+					// another node co-signs: membership and witness are both those of the named key
+					signers = []neotest.Signer{nodes[ni], nodes[(ni+1)%3]}
+					if rapid.Bool().Draw(rt, "coSignerFirst") {
+						signers[0], signers[1] = signers[1], signers[0]
+					}
+					h.Mark("co-signed-by-another-node")
 				}
 				// membership in the previous epoch's map, as Netmap itself reports it
 				inPrev := false
